@@ -32,6 +32,8 @@ def run(ck):
         return
     T = bindings.Tables(tab)
     c01.glue_facts(ck)
+    if tab["errors"]:
+        c01.directed_by_errors(ck, T, tab["errors"], prop="C04")
     if c01.wf_obligations(ck, T, prop="C04"):
         ck.compile_props()
     else:
@@ -59,8 +61,8 @@ def run(ck):
              ["charref-cr-in-text", doc % '<notes>l1&#13;l2</notes>'],
              ["charref-newline-in-attribute", doc % '<property tag="a&#10;b" value="v"/>'],
              ["entities-in-attribute-and-text", doc % '<notes>a &lt; b &amp;&amp; c &gt; d</notes><property tag="&quot;q&quot; &apos;a&apos; &lt;&amp;&gt;" value="v"/>']]
-    out = ck.impl("c04_impl.py", {"order": order, "tables": tables, "cases": cases, "files": files, "seed": ck.seed, "texts": texts},
-                  timeout=1500)
+    out = ck.try_impl("c04_impl.py", {"order": order, "tables": tables, "cases": cases, "files": files, "seed": ck.seed, "texts": texts},
+                      timeout=900, label="rewriters") or {"results": [], "probes": []}
     res = out["results"]
     for pr in out.get("probes", []):
         ck.count(1, nontrivial_key="probe:" + pr["name"])
